@@ -5,7 +5,13 @@ Layers (DESIGN §7 C09, design_notes/C09.md):
   2. ORACLE on the real `State` after every `run_to_completion` (this decides the property on the code):
      queue empty; from-scratch scan == event_matching_heads (multisets) and the reverse map is its inverse; every
      active head of every listening instance parked on match / wait-for-heads; done instances hold no head; no
-     instance left STOPPING; every referenced flow / action uid exists.
+     instance left STOPPING; every referenced flow / action uid exists; every index entry is the (flow uid, head uid) tuple
+     the interpreter itself adds and removes.  DURING the event (worklist tie): at every boundary of the loops of
+     `run_to_completion` (recorded by harness/impl/corevm.py: each call / return of `_advance_head_front` from
+     run_to_completion, each call of `_resolve_action_conflicts`) the invariant `PendingCovers` — every non-INACTIVE head of a
+     listening instance that is neither on a match nor on a wait-for-heads element is in the pending list — and, where the
+     actionable heads are resolved, an empty internal queue (`check_loops`).  The recorded worklists stay in the observation
+     (`steps[i]["loops"]`) for a comparison with the model's pending lists.
   3. record / replay tie: the primitive index operations the real interpreter performed (recorded by
      harness/impl/corevm.py) are replayed in the Lean model; the model's index must equal the real one after every
      external event and every guard of the model must hold on the recorded stream.
@@ -27,7 +33,10 @@ RULE = ("program: 1-5 generated Colang 2.x flows (match/send/start/await, and/or
         "activate, references, return/abort, shared-context children) or the shipped core.co/guardrails.co with stub rails; "
         "history: random external events (plain events of the program's alphabet, Started/Finished events of actions the "
         "program started, state save/restore, clock jumps) of length <=12 quick / <=40 thorough, exhaustive over <=3 events "
-        "x length <=5 for small programs; several tie-break seeds. non-trivial = at least one event moved a head that was "
+        "x length <=5 for small programs; several tie-break seeds; extra shapes: main flow not kept alive (restarted, stays WAITING), "
+        "histories dense in clock jumps / save-restore round trips, observer flows (flow-object events of flows started by somebody "
+        "else inside `when` conditions and groups), control events addressed through a flow reference (`send $ref.Stop()`, "
+        "StopFlow / FinishFlow by flow_instance_uid), `deactivate`. non-trivial = at least one event moved a head that was "
         "parked (index changed) AND the program has >=2 flow instances or a fork; distinct = distinct (program, history, seed).")
 TRUSTED_BASE = [
     "recorder harness/impl/corevm.py (monkey-patched setters / dict wrapper; appends only) and the pattern grouping `group_ops`",
@@ -112,8 +121,139 @@ def static_tie():
     return problems
 
 
+def _history_x(rng, n):
+    """History with many clock jumps (state clean-up of instances older than 5 s) and save/restore round trips in the
+    MIDDLE of the history (the base generator has ~3 % of either per item): old parked / waiting / done instances meet
+    `_clean_up_state`, and the restored state is driven further with non-main flows parked."""
+    h = []
+    for _ in range(n):
+        x = rng.random()
+        if x < 0.18:
+            h.append(["clock", rng.choice([1, 6, 6, 20])])
+        elif x < 0.30:
+            h.append(["reload"])
+        else:
+            h.extend(gen.history(rng, 1))
+    return h
+
+
+class _GX(gen.G):
+    """Base program generator, except that the conditions of `when` / `or when` (the base generator builds them without the
+    flow index) may use what a top-level `match` may — in particular flow-object events `fx.Started()/.Finished()/.Failed()`
+    of flows that SOMEBODY ELSE started — and that such events are frequent; plus `send $ref.Stop()`, StopFlow / FinishFlow by
+    `flow_instance_uid`, and `deactivate`. A `when` condition is evaluated inside a scope:
+    a FlowStarted event matched there registers the (foreign) flow in the scope of the matching flow, which stays open while
+    the rest of an `and` group is still waiting."""
+
+    _fi = None
+
+    def stmt(self, fi, depth, in_loop=False):
+        self._fi = fi
+        r = self.rng
+        # control events addressed to ONE flow instance through a reference (`start fx as $f` ... `send $f.Stop()`): the
+        # by-uid branches of StopFlow / FinishFlow (the base generator addresses flows by name only)
+        frefs = [v for v in self.pending_refs if v.startswith("f")]
+        if frefs and r.random() < 0.2:
+            v = r.choice(frefs)
+            self.feats.add("stop-by-ref")
+            return ["raw", r.choice([f"send ${v}.Stop()", f"send ${v}.Stop()", f"send StopFlow(flow_instance_uid=${v}.uid)",
+                                     f"send FinishFlow(flow_instance_uid=${v}.uid)"])]
+        if not frefs and r.random() < 0.08:
+            j = self.callee(fi)
+            if j is not None:
+                name, args = self.flow_call(j)
+                ref = self.var("f")
+                self.pending_refs.append(ref)
+                self.feats.add("start-flow")
+                return ["start_flow", name, args, ref]
+        if r.random() < 0.03:
+            j = self.callee(fi)
+            if j is not None:
+                self.feats.add("deactivate")
+                return ["raw", "deactivate " + self.flows_meta[j]["name"]]
+        s = super().stmt(fi, depth, in_loop)
+        self._fi = fi
+        return s
+
+    def match_group(self, depth=2, fi=None):
+        r = self.rng
+        if fi is None:
+            fi = self._fi
+        if fi is not None and (depth <= 0 or r.random() < 0.5) and r.random() < 0.3:
+            j = self.callee(fi)
+            if j is not None:
+                self.feats.add("match-flow-event")
+                return ["objev", self.flows_meta[j]["name"], r.choice(["Started", "Started", "Finished", "Failed"]), []]
+        return super().match_group(depth, fi)
+
+    def program(self):
+        """Often with an *observer*: a flow Y that waits, inside a `when` condition, for the start (and something else) of a
+        flow X which the main flow starts later on — Y parks first, X starts while Y's scope is open."""
+        prog = super().program()
+        r = self.rng
+        n = len(prog["flows"])
+        if n >= 3 and r.random() < 0.75:
+            y = r.randrange(1, n - 1)
+            x = r.randrange(y + 1, n)
+            xname = self.flows_meta[x]["name"]
+            cond = ["objev", xname, r.choice(["Started", "Started", "Started", "Finished"]), []]
+            if r.random() < 0.8:
+                cond = [r.choice(["and", "and", "and", "or"]), cond, self.ev()]
+            cases = [[cond, [["send", r.choice(OUTS_), []]]]]
+            if r.random() < 0.5:
+                cases.append([self.ev(), [["send", r.choice(OUTS_), []]]])
+            prog["flows"][y]["body"].insert(0, ["when", cases, None])
+            yn, yargs = self.flow_call(y)
+            xn, xargs = self.flow_call(x)
+            between = [["match", self.ev()]] if r.random() < 0.3 else []
+            prog["flows"][0]["body"][0:0] = [["start_flow", yn, yargs, None]] + between + [["start_flow", xn, xargs, None]]
+            self.feats.add("observer")
+        return prog
+
+
+OUTS_ = gen.OUTS
+
+
+def _extra_cases(rng, tier):
+    """Shapes the base generator (harness/impl/corevm_gen.py) does not reach — added AFTER the base cases, with the same rng,
+    so the base distribution is unchanged:
+      * `main-ends`: the main flow is NOT kept alive by a trailing `match Never()`: it finishes, is restarted by
+        `_finish_flow` and stays a WAITING instance (head at position 0, registered under StartFlow) for the rest of the
+        history — the only long-lived WAITING instances there are; clock jumps follow, so the clean-up sees them;
+      * `clocky`: ordinary programs under histories dense in clock jumps and save/restore round trips;
+      * `when-objev`: programs of `_GX` (flow-object events of foreign flows inside `when` conditions and groups), same histories."""
+    quick = tier == "quick"
+    hmax = 12 if quick else 40
+    out = []
+    for i in range(60 if quick else 600):
+        g = gen.G(rng, rng.choice([1, 2, 2, 3, 3, 4]), rng.choice([1, 2, 2, 3]))
+        prog = g.program()
+        main = prog["flows"][0]
+        if main["body"] and main["body"][-1] == ["match", ["ev", "Never", []]]:
+            main["body"] = main["body"][:-1]
+        n1 = rng.randrange(1, hmax // 2 + 1)
+        n2 = rng.randrange(1, hmax // 2 + 1)
+        hist = gen.history(rng, n1) + [["clock", rng.choice([6, 6, 20])]] + _history_x(rng, n2)
+        out.append({"kind": "gen", "prog": prog, "history": hist, "tie_seed": rng.randrange(1 << 30), "feats": sorted(g.feats | {"main-ends"})})
+    for i in range(60 if quick else 600):
+        g = gen.G(rng, rng.choice([2, 2, 3, 3, 4, 5]), rng.choice([1, 2, 2, 3]))
+        prog = g.program()
+        out.append({"kind": "gen", "prog": prog, "history": _history_x(rng, rng.randrange(3, hmax + 1)), "tie_seed": rng.randrange(1 << 30),
+                    "feats": sorted(g.feats | {"clocky"})})
+    for i in range(100 if quick else 1000):
+        g = _GX(rng, rng.choice([3, 3, 4, 5]), rng.choice([1, 2, 2, 3]))
+        prog = g.program()
+        n1 = rng.randrange(1, hmax // 2 + 1)
+        n2 = rng.randrange(2, hmax // 2 + 2)
+        hist = gen.history(rng, n1) + [["clock", rng.choice([6, 6, 20])]] + _history_x(rng, n2)
+        out.append({"kind": "gen", "prog": prog, "history": hist, "tie_seed": rng.randrange(1 << 30), "feats": sorted(g.feats | {"when-objev"})})
+    return out
+
+
 def gen_cases(rng, tier):
-    return gen.gen_cases(rng, tier)
+    cases = gen.gen_cases(rng, tier)
+    cases.extend(_extra_cases(rng, tier))
+    return cases
 
 
 # ----------------------------------------------------------------------------------------- implementation
@@ -152,6 +292,10 @@ def snapshot(state):
                       "scope_flows": scopes_f, "scope_actions": scopes_a, "loop": fs.loop_id})
     return {
         "queue": len(state.internal_events),
+        # the interpreter removes an entry with `list.remove((flow_uid, head_uid))`: an entry that is not Python-equal to that
+        # tuple (e.g. a 2-element list after a save/restore round trip) can never be removed again
+        "entry_shape": [f"{nm}:{k!r}" for nm, ks in state.event_matching_heads.items() for k in ks
+                        if not (type(k) is tuple and len(k) == 2 and all(isinstance(x, str) for x in k))][:3],
         "index": [[nm, [list(k) for k in ks]] for nm, ks in state.event_matching_heads.items()],
         "rev": [[k, nm] for k, nm in state.event_matching_heads_reverse_map.items()],
         "insts": insts,
@@ -261,6 +405,7 @@ def run_impl(case):
     sm = cv.sm
     cv.REC.reset()
     cv.REC.rng = random.Random(case.get("tie_seed", 0))
+    cv.REC.loops_on = True
     obs = {"steps": [], "notes": []}
     pkey = json.dumps(case.get("prog") or case.get("src"), sort_keys=True)
     hist = list(case["history"])
@@ -351,6 +496,7 @@ def run_impl(case):
             else:
                 raise ValueError(kind)
             step["event"] = ev if isinstance(ev, dict) else {"type": ev.name, **ev.arguments}
+            cv.take_loops()
             try:
                 with cv.quiet():
                     sm.run_to_completion(state, ev)
@@ -359,6 +505,7 @@ def run_impl(case):
             except Exception as e:  # noqa  -- an exception escaping run_to_completion is C10's subject; the state is still observed
                 step["exc"] = type(e).__name__ + ":" + str(e)[:100]
             prims = cv.take_prims()
+            step["loops"] = cv.take_loops()
             step["ops"], step["op_problems"] = cv.group_ops(prims)
             step["choices"] = cv.take_choices()
             step["snap"] = snapshot(state)
@@ -397,6 +544,11 @@ def run_impl(case):
     obs["latent"] = _latent_regions(obs)
     keep_full = bool(obs["findings"]) or case.get("keep_snapshots")
     for st in obs["steps"]:
+        if not keep_full:
+            # the worklists at the loop boundaries stay in the observation (key "loops": [{"at", "queue", <worklists>}]) for the
+            # comparison with the model's pending lists; the per-boundary list of all live heads was only needed by the oracle
+            for b_ in st.get("loops", []):
+                b_.pop("live", None)
         if "snap" in st and not keep_full:
             sn = st["snap"]
             st["snap"] = {"index": sn["index"], "rev": sn["rev"],
@@ -624,6 +776,8 @@ def check_snapshot(snap):
         else:
             sig = "index-missed" if missed and not stale else ("index-stale" if stale and not missed else "index-differs")
             bad.append((sig, f"index != scan: missed {missed[:3]} stale {stale[:3]}"))
+    if snap.get("entry_shape"):
+        bad.append(("index-entry-shape", f"index entry is not the (flow uid, head uid) tuple the interpreter adds and removes: {snap['entry_shape'][0]}"))
     rev = sorted([k, nm] for k, nm in snap["rev"])
     inv = sorted([k[0] + k[1], nm] for nm, k in entries)
     if rev != inv:
@@ -675,6 +829,37 @@ def check_snapshot(snap):
     return bad
 
 
+# Which worklists make up "the pending list" at each boundary of the loops of `run_to_completion` (recorded by
+# harness/impl/corevm.py): the local `actionable_heads` of run_to_completion plus the list handed to / returned by
+# `_advance_head_front`; at `resolve` (once per iteration of `while heads_are_advancing`) the argument list itself.
+PENDING_AT = {
+    "resolve": ("pending",),
+    "match-in": ("actionable", "heads"), "match-out": ("actionable", "out"),
+    "merge-in": ("actionable", "heads"), "merge-out": ("actionable", "out"),
+    "advance-in": ("heads",), "advance-out": ("out",),
+}
+
+
+def check_loops(loops):
+    """Worklist invariant `PendingCovers` at every loop boundary of run_to_completion: every non-INACTIVE head of every
+    listening (WAITING / STARTING / STARTED) instance that is NOT on a `match` element and NOT on a wait-for-heads element is
+    in the pending list (or in the list of heads being advanced) — a head that is neither parked nor pending can never be
+    advanced again within this event.  At `resolve` additionally: no internal event is queued."""
+    bad = []
+    for k, b in enumerate(loops):
+        keys = PENDING_AT.get(b["at"])
+        if keys is None or "live" not in b or any(b.get(x) is None for x in keys):
+            continue
+        pend = {(e[0], e[1]) for x in keys for e in b[x]}
+        for f, fst, h, pos, hst, kind in b["live"]:
+            if fst in LISTENING and kind not in ("match", "wait") and (f, h) not in pend:
+                bad.append(("pending-covers", f"loop boundary #{k} ({b['at']}): head {h} of {f} ({hst}, on a {kind} element at {pos}) is neither parked nor in the pending list {sorted(pend)[:6]}"))
+                break
+        if b["at"] == "resolve" and b["queue"] != 0:
+            bad.append(("pending-queue", f"loop boundary #{k} (resolve): {b['queue']} internal events queued when the actionable heads are resolved"))
+    return bad
+
+
 def _findings(case, obs):
     if "findings" in obs:
         return [tuple(f) for f in obs["findings"]]
@@ -694,6 +879,8 @@ def _compute_findings(obs):
             continue
         for sig, msg in check_snapshot(st["snap"]):
             out.append((sig, f"after step {n} ({st['item']}): {msg}"))
+        for sig, msg in check_loops(st.get("loops", [])):
+            out.append((sig, f"during step {n} ({st['item']}): {msg}"))
     return out
 
 
@@ -781,6 +968,13 @@ def tags(case, obs):
             t.append("op-problem")
         if st.get("choices"):
             t.append("tie-break")
+    nb = sum(len(st.get("loops", [])) for st in obs["steps"])
+    t.append("loop-boundaries:" + str(min(2000, nb // 50 * 50)))
+    for st in obs["steps"]:
+        for b_ in st.get("loops", []):
+            if b_["at"].startswith("unknown") or (b_["at"] in PENDING_AT and any(b_.get(x) is None for x in PENDING_AT[b_["at"]])):
+                t.append("loop-boundary-unclassified")
+                break
     t.extend("op:" + k for k in sorted(opk))
     t.append("nops:" + str(min(2000, nops // 50 * 50)))
     for f in gen.features(case):
@@ -798,4 +992,9 @@ def shrink(case):
 
 
 def escalate(rng, case, tier):
-    return gen.escalate(rng, case, tier)
+    out = gen.escalate(rng, case, tier)
+    if case is not None and case.get("kind") != "lib":
+        for _ in range(100):
+            out.append(dict(case, history=_history_x(rng, rng.randrange(2, 30)), tie_seed=rng.randrange(1 << 30)))
+    out.extend(_extra_cases(rng, "quick"))
+    return out
